@@ -341,6 +341,17 @@ func (e encoder) marshalUnknown(b []byte) {
 	}
 }
 
+// typeURLRoundTrips reports whether the expanded form of an Any can name the
+// given type URL, that is, whether "[typeURL]" is read back by the text
+// format parser as exactly typeURL. The parser accepts only a subset of URL
+// characters between the brackets and ignores whitespace there (for example,
+// "http://host/pkg.M" and "my host/pkg.M" cannot be written), in which case
+// the Any is marshaled in its regular form.
+func typeURLRoundTrips(typeURL string) bool {
+	tok, err := text.NewDecoder([]byte("[" + typeURL + "]")).Read()
+	return err == nil && tok.Kind() == text.Name && tok.NameKind() == text.TypeName && tok.TypeName() == typeURL
+}
+
 // marshalAny marshals the given google.protobuf.Any message in expanded form.
 // It returns true if it was able to marshal, else false.
 func (e encoder) marshalAny(any protoreflect.Message) bool {
@@ -348,6 +359,9 @@ func (e encoder) marshalAny(any protoreflect.Message) bool {
 	fds := any.Descriptor().Fields()
 	fdType := fds.ByNumber(genid.Any_TypeUrl_field_number)
 	typeURL := any.Get(fdType).String()
+	if !typeURLRoundTrips(typeURL) {
+		return false
+	}
 	mt, err := e.opts.Resolver.FindMessageByURL(typeURL)
 	if err != nil {
 		return false
